@@ -1,4 +1,5 @@
 import IceProofs.Sys2C20FrameS
+import IceProofs.AgentAuto
 /-!
 # C20 on `Sys2` — frame walk for `answeredNomination`
 
@@ -24,11 +25,11 @@ open IceModel.AgentCore IceProofs.Agent
 @[simp] theorem ansv_mk (cfg tieBreaker controlling started closed connState localUfrag localPwd remoteUfrag remotePwd
     locals remotes checklist nextPairID nextUid nextTid tag pending selected selStart nominatedPair lastNomination answeredNomination
     lastSeen checkingStart checkingTimeout forcePending nextTick caches rx connBytesSent connBytesRecv
-    onConnectedFired generation nomIssued) :
+    onConnectedFired generation nomIssued lastRenomTime nomCounter) :
     (Agent.mk cfg tieBreaker controlling started closed connState localUfrag localPwd remoteUfrag remotePwd
     locals remotes checklist nextPairID nextUid nextTid tag pending selected selStart nominatedPair lastNomination answeredNomination
     lastSeen checkingStart checkingTimeout forcePending nextTick caches rx connBytesSent connBytesRecv
-    onConnectedFired generation nomIssued).ansv = ⟨answeredNomination⟩ := rfl
+    onConnectedFired generation nomIssued lastRenomTime nomCounter).ansv = ⟨answeredNomination⟩ := rfl
 
 @[simp] theorem ansv_eta (y : Agent) : AnsV.mk y.answeredNomination = y.ansv := rfl
 theorem ansv_v (a : Agent) : a.ansv.v = a.answeredNomination := rfl
@@ -131,6 +132,10 @@ macro "ansv_cases" : tactic =>
 @[simp] theorem ansv_nominate (a : Agent) (now : Nat) (p : Pair) : (a.nominate now p).1.ansv = a.ansv := by
   unfold Agent.nominate
   split <;> simp
+
+@[simp] theorem ansv_autoRenom (a : Agent) (now : Nat) : (a.autoRenom now).1.ansv = a.ansv :=
+  IceProofs.Auto.autoRenom_proj Agent.ansv now (fun _ _ _ => rfl) (fun b l r u n => ansv_sendRequest b now l r u n)
+    (fun _ _ => rfl) (fun _ _ => rfl) (fun _ _ => rfl) a
 
 @[simp] theorem ansv_contactCandidates (a : Agent) (now : Nat) : (a.contactCandidates now).1.ansv = a.ansv := by
   unfold Agent.contactCandidates
